@@ -80,11 +80,11 @@ def desc_lines(o):
     return [f"tok_{und(o)}_desc first line.", f"Second line of {und(o)}."]
 
 
-def fun_src(style, owner, name, ind="", recv="", example=False) -> str:
+def fun_src(style, owner, name, ind="", recv="", example=False, pname="p") -> str:
     u = und(owner)
-    d = doc(style, desc_lines(owner), ind + "    ", params=[("p", "int", f"tok_{u}_p_p is a parameter.")], ret=f"tok_{u}_res is the result.",
+    d = doc(style, desc_lines(owner), ind + "    ", params=[(pname, "int", f"tok_{u}_p_{pname} is a parameter.")], ret=f"tok_{u}_res is the result.",
             ex=f'>>> tok_{u}_ex(">>> 1",\n...        [...])' if example else None)
-    args = ", ".join(x for x in (recv, "p: int") if x)
+    args = ", ".join(x for x in (recv, f"{pname}: int") if x)
     # a string statement further down in the body is no docstring
     return f"{ind}def {name}({args}) -> int:\n{d}\n{ind}    q = 1\n{ind}    \"\"\"String statement in the body of {name}.\"\"\"\n{ind}    return q\n"
 
@@ -96,7 +96,9 @@ def elem_src(style, e) -> str:
         d = doc(style, desc_lines("CA"), "    ", params=[("x", "int", "tok_CA_p_x is a parameter.")], attrs=[("at", "int", "tok_CA_at_at is an attribute.")])
         # the string after the attribute is the attribute's docstring by convention, not the class's
         return (f"class CA:\n{d}\n\n    at: int = 1\n    \"\"\"String statement after the attribute at.\"\"\"\n\n    def __init__(self, x: int):\n        ...\n\n"
-                + fun_src(style, "CA.meth", "meth", "    ", "self") + "\n")
+                + fun_src(style, "CA.meth", "meth", "    ", "self") + "\n"
+                # a method whose name merely ends in __init__, with a parameter named like the constructor's
+                + fun_src(style, "CA.re__init__", "re__init__", "    ", "self", pname="x") + "\n")
     if e == "fc":
         if style == "NUMPYDOC":
             ind = "    "
@@ -123,6 +125,7 @@ for o in ("fa", "fb", "CA.meth", "CB.meth"):
     DECODE[f"tok_{und(o)}_res"] = (o, "res")
 DECODE.update({"tok_fc_desc": ("fc", "desc"), "tok_fc_p_p": ("fc", "p_p"), "tok_fc_ra": ("fc", "ra"), "tok_fc_rb": ("fc", "rb"), "tok_fc_rc": ("fc", "rc")})
 DECODE["tok_CD_p_z"] = ("CD", "p_z")
+DECODE.update({"tok_CA_re__init___desc": ("CA.re__init__", "desc"), "tok_CA_re__init___p_x": ("CA.re__init__", "p_x"), "tok_CA_re__init___res": ("CA.re__init__", "res")})
 DECODE.update({"tok_fa_ex": ("fa", "ex"), "tok_CA_desc": ("CA", "desc"), "tok_CB_desc": ("CB", "desc"), "tok_CA_p_x": ("CA", "p_x"), "tok_CA_at_at": ("CA.at", "at")})
 
 
@@ -236,7 +239,7 @@ def main(v: Verdict) -> None:
                 fnd, desc, text, excode = comment_facts(path, d)
                 found += fnd
                 texts[path] = text
-                if path in ("fa", "fb", "fc", "CA", "CB", "CA.meth", "CB.meth"):
+                if path in ("fa", "fb", "fc", "CA", "CB", "CA.meth", "CB.meth", "CA.re__init__"):
                     lines.append({"decl": path, "text": desc, "excode": excode})
             obs.append({"id": f"module:{style}:{mod}", "kind": "module", "obs": {"style": style, "found": found, "lines": lines, "moddoc": sds.doc_lines(f.doc) if f.doc else []}})
             per_style.setdefault(mod, {})[style] = texts
